@@ -105,9 +105,9 @@ impl ValveState {
         let mut rules: Vec<(String, String)> = Vec::new();
         let mut seen = std::collections::HashSet::new();
         for i in 0 .. nrules {
-            let mut k = if t.draw(DATA, 3) == 0 { s(t, 40) } else { gen::word(t, 12) };
+            let mut k = if t.draw(DATA, 3) == 0 { gen::key_string(t, &StrOpts::plain(40)) } else { gen::word(t, 12) };
             if k == "Test" || !seen.insert(k.clone()) {
-                k = format!("{k}#{i}");
+                k = format!("{k}_{i}");
                 seen.insert(k.clone());
             }
             rules.push((k, s(t, 60)));
